@@ -38,7 +38,7 @@ Task: make a REALISTIC source change (the kind of slip a maintainer could make i
   1. the workspace still compiles (`cargo build --workspace --offline`), and
   2. the existing test suite still passes (`cargo test --workspace --no-fail-fast --offline`; the doctest `libherokubuildpack/src/download.rs - download::download_file` fails already on the unchanged tree because it needs network -- ignore that one), and
   3. the violation needs something SPECIFIC to manifest (a particular input shape, state, ordering, or failure), i.e. it is not visible on the simplest happy path.
-Do not edit or add tests in the repository's test modules. Keep the patch small (ideally < 25 changed lines, one or two files). {HINTS.get(i, '')}
+{"Prefer a code path that a verification harness concentrating on the main functions could overlook: a secondary public entry point or convenience wrapper, a rarely used builder method, an error or cleanup path, a multi-step sequence of calls, an unusual-but-legal input (empty, duplicated, very long, non-UTF-8, dotted or nested names), or two sites that each look fine alone. " if rnd >= 9 else ""}Do not edit or add tests in the repository's test modules. Keep the patch small (ideally < 25 changed lines, one or two files). {HINTS.get(i, '')}
 
 Then DEMONSTRATE the violation: write a small standalone demonstration (e.g. a scratch cargo project under {od}/demo with path dependencies on the crates in your worktree and an empty [workspace] table, copying {wt}/Cargo.lock next to its Cargo.toml first if one exists so that it resolves offline; or a shell script) that shows concretely: with your patch the property fails on a specific input (print the input and the wrong outcome), and on the unpatched code (`git diff > patch; git checkout -- .`) the same input behaves correctly. Actually run it both ways and record the outputs.
 
